@@ -394,6 +394,52 @@ def synthesizeCall (cfg : Cfg) (reserved : List Str) (ctx : Ctx) (s : Str) : Res
 def translateCall (cfg : Cfg) (reserved : List Str) (ctx : Ctx) (name : Str) : Res :=
   callEntry reserved ctx (fun c => translateNamed cfg c name)
 
+/-! ### the registry of a live instance: every way a template gets into `Ribosome.templates`
+
+  `create_template(seq, name)` builds `mRNA(seq, name)` and calls `register_template(t)`;
+  `register_template(t, name=None)` writes `self.templates[name or t.name] = t` and raises `ValueError` when both are
+  falsy; the constructor's `templates=` mapping and a direct assignment `rb.templates[key] = t` write under the KEY,
+  whatever the mRNA calls itself.  The registry is a `dict`: a key that exists keeps its slot (`updKey`).  Nothing else
+  is remembered: `translate(name)` and `{{>name}}` read `self.templates[name]` at the moment of the render. -/
+
+inductive RegOp where
+  | create (name seq : Str)            -- `create_template(seq, name)`
+  | register (name own seq : Str)      -- `register_template(mRNA(seq, name=own), name=name)`; `[]` = falsy / not given
+  | assign (key own seq : Str)         -- `templates[key] = mRNA(seq, name=own)`; also one entry of the constructor's mapping
+deriving Repr, DecidableEq
+
+/-- the key an operation writes under; `none`: `ValueError("Template must have a name")`, nothing is written -/
+def RegOp.key : RegOp → Option Str
+  | .create n _ => if n = [] then none else some n
+  | .register n own _ => if n = [] then (if own = [] then none else some own) else some n
+  | .assign k _ _ => some k
+
+def RegOp.seq : RegOp → Str
+  | .create _ s => s
+  | .register _ _ s => s
+  | .assign _ _ s => s
+
+def regStep (ts : List (Str × Str)) (op : RegOp) : List (Str × Str) :=
+  match op.key with
+  | some k => updKey ts k op.seq
+  | none => ts
+
+/-- a history of registrations on one instance -/
+def regRun (ts : List (Str × Str)) (ops : List RegOp) : List (Str × Str) := ops.foldl regStep ts
+
+/-- the sequence of the LAST operation of the history that wrote under `k` -/
+def lastWrite (k : Str) : List RegOp → Option Str
+  | [] => none
+  | op :: r =>
+    match lastWrite k r with
+    | some s => some s
+    | none => if op.key = some k then some op.seq else none
+
+/-- the same environment with another registry -/
+def withReg (cfg : Cfg) (r : List (Str × Str)) : Cfg :=
+  { isWord := cfg.isWord, isSpace := cfg.isSpace, filters := cfg.filters, applyF := cfg.applyF, templates := r,
+    strict := cfg.strict, markerPre := cfg.markerPre, markerSuf := cfg.markerSuf }
+
 /-- ASCII `\w` and `\s` (the driver extends them with the non-ASCII code points the harness reports) -/
 def asciiWord (c : Nat) : Bool :=
   (48 ≤ c && c ≤ 57) || (65 ≤ c && c ≤ 90) || (97 ≤ c && c ≤ 122) || c == 95
